@@ -1,5 +1,9 @@
-"""C13 clients: parallel DOE (ParallelDOE.tla, forced completion orders on the process back-end) and
-parallel chain / linearization / finite differences compared with their sequential counterparts."""
+"""C13 clients: parallel DOE (ParallelDOE.tla, forced completion orders on the process back-end), parallel
+chains whose members share output names (ParallelChain.tla, forced completion orders of the members, repeated
+calls, failing members), shared caches (SharedCache.tla), DiscParallelExecution / DiscParallelLinearization
+reused over consecutive executions, parallel Jacobi MDA after a failed point, the sequential/parallel
+front-end `gemseo.utils.multiprocessing.execution.execute`, and finite differences - all compared with
+their sequential counterparts and with the specification."""
 from __future__ import annotations
 
 import contextlib
@@ -14,17 +18,33 @@ from ..core import MachineryError
 from ..tlaval import seq
 
 
-def doe_cfg(n, points, nw, *, cases=False):
-    s = f"CONSTANTS N = {n}\n Points = {{{', '.join(map(str, points))}}}\n NWorkers = {nw}\n"
+def _b(x):
+    return "TRUE" if x else "FALSE"
+
+
+def _num(mapping, name):
+    """The first component of mapping[name] as a float; None when it is missing or not a number."""
+    try:
+        return float(np.ravel(mapping[name])[0])
+    except Exception:  # noqa: BLE001
+        return None
+
+
+def doe_cfg(n, points, nw, *, eval_jac=True, stages=(0, 1, 2, 3, 4), drop_partial=False, worker_jac=False,
+            cases=False, verify=True):
+    s = (f"CONSTANTS N = {n}\n Points = {{{', '.join(map(str, points))}}}\n NWorkers = {nw}\n EvalJac = {_b(eval_jac)}\n"
+         f" FailStages = {{{', '.join(map(str, stages))}}}\n DropPartial = {_b(drop_partial)}\n WorkerJacobian = {_b(worker_jac)}\n")
     s += "SPECIFICATION Spec\nINVARIANT SameAsSequential\nINVARIANT OrderFixed\n"
     if cases:
         s += "INVARIANT Cases\n"
-    else:
+    elif verify:
         s += "VIEW View\nPROPERTY Live\n"
     return s
 
 
 PT = {1: (0.0, 0.0), 2: (1.0, 0.5), 3: (-1.0, 0.25)}
+EVALS = ("f", "c", "@f", "@c")
+SCALE = 4.0  # upper bound - lower bound of the design space: Jacobian w.r.t. normalized variables = SCALE * Jacobian
 
 
 def f_val(p):
@@ -32,26 +52,46 @@ def f_val(p):
     return (x[0] - 0.5) ** 2 + (x[1] + 0.25) ** 2
 
 
-def make_problem(fail_pts=()):
+def jac_u(name, p):
+    x = PT[p]
+    return [2 * (x[0] - 0.5), 2 * (x[1] + 0.25)] if name == "@f" else [1.0, 1.0]
+
+
+def make_problem(fail_at=None):
+    """fail_at: point -> number of the evaluation (1..4 in the order f, c, @f, @c) that raises ValueError."""
     from gemseo.algos.design_space import DesignSpace
     from gemseo.algos.optimization_problem import OptimizationProblem
     from gemseo.core.mdo_functions.mdo_function import MDOFunction
 
+    fail_at = fail_at or {}
     ds = DesignSpace()
     ds.add_variable("x", 2, lower_bound=-2.0, upper_bound=2.0, value=np.array([1.0, 1.0]))
     problem = OptimizationProblem(ds)
     inv = {v: k for k, v in PT.items()}
 
-    def f(x):
+    def guard(stage, x):
         p = inv[(float(x[0]), float(x[1]))]
-        if p in fail_pts:
-            raise ValueError(f"boom {p}")
+        if fail_at.get(p, 0) == stage:
+            raise ValueError(f"boom {p} at {EVALS[stage - 1]}")
+
+    def f(x):
+        guard(1, x)
         return (x[0] - 0.5) ** 2 + (x[1] + 0.25) ** 2
 
-    problem.objective = MDOFunction(f, "f", jac=lambda x: np.array([2 * (x[0] - 0.5), 2 * (x[1] + 0.25)]))
-    problem.add_constraint(
-        MDOFunction(lambda x: np.array([x[0] + x[1] - 0.125]), "c", jac=lambda x: np.array([[1.0, 1.0]])),
-        constraint_type="ineq")
+    def df(x):
+        guard(3, x)
+        return np.array([2 * (x[0] - 0.5), 2 * (x[1] + 0.25)])
+
+    def c(x):
+        guard(2, x)
+        return np.array([x[0] + x[1] - 0.125])
+
+    def dc(x):
+        guard(4, x)
+        return np.array([[1.0, 1.0]])
+
+    problem.objective = MDOFunction(f, "f", jac=df)
+    problem.add_constraint(MDOFunction(c, "c", jac=dc), constraint_type="ineq")
     return problem
 
 
@@ -63,11 +103,14 @@ def dump_db(problem):
     return out
 
 
-def run_doe_forced(samples, fail_pts, order, nw, step_timeout=10.0):
+def run_doe_forced(samples, fail_at, normalize, order, nw):
     """samples: list of point ids (1-based positions in `order`)."""
     from gemseo.algos.doe.factory import DOELibraryFactory
 
+    from .c13 import patience
+
     ctx = mp.get_context("fork")
+    wait = patience()
     occ_of = {}
     seen = {}
     for i, p in enumerate(samples, 1):
@@ -78,19 +121,20 @@ def run_doe_forced(samples, fail_pts, order, nw, step_timeout=10.0):
     started = {k: ctx.Event() for k in keys}
     finished = {k: ctx.Event() for k in keys}
     tickets = {p: ctx.Value("i", 0) for p in set(samples)}
-    problem = make_problem(fail_pts)
+    problem = make_problem(fail_at)
     inv = {v: k for k, v in PT.items()}
     arr = np.array([PT[p] for p in samples])
     problems = []
+    over = threading.Event()
 
     def controller():
         for i in order:
             k = occ_of[i]
-            if not started[k].wait(step_timeout):
-                problems.append(f"task {i} (point {k[0]}) never started although the specification allows it to complete now")
-                break
+            while not started[k].wait(0.05):
+                if over.is_set():
+                    return
             gates[k].set()
-            finished[k].wait(step_timeout)
+            finished[k].wait(wait)
             time.sleep(0.01)
         for g in gates.values():
             g.set()
@@ -111,103 +155,168 @@ def run_doe_forced(samples, fail_pts, order, nw, step_timeout=10.0):
                     occ = tickets[p].value
                     tickets[p].value += 1
                 started[(p, occ)].set()
-                gates[(p, occ)].wait(30)
+                gates[(p, occ)].wait(600)
                 try:
                     return inner(x)
                 finally:
                     finished[(p, occ)].set()
 
             lib._worker = gated_worker
-            lib.execute(problem, samples=arr, n_processes=nw, eval_jac=True)
+            lib.execute(problem, samples=arr, n_processes=nw, eval_jac=True, normalize_design_space=normalize)
         except BaseException as e:  # noqa: BLE001
             res["error"] = e
+        over.set()
         for g in gates.values():
             g.set()
-        th.join(30)
+        th.join(wait)
     return problem, res, problems
 
 
-def run_doe_seq(samples, fail_pts):
+def run_doe_seq(samples, fail_at, normalize):
     from gemseo.algos.doe.factory import DOELibraryFactory
 
-    problem = make_problem(fail_pts=fail_pts)
+    problem = make_problem(fail_at)
     arr = np.array([PT[p] for p in samples])
     with contextlib.redirect_stderr(io.StringIO()):
-        DOELibraryFactory().execute(problem, algo_name="CustomDOE", samples=arr, eval_jac=True)
+        DOELibraryFactory().execute(problem, algo_name="CustomDOE", samples=arr, eval_jac=True,
+                                    normalize_design_space=normalize)
     return problem
 
 
-def run(ck, rng):
-    # ---- ParallelDOE: model checking + forced completion orders on the real parallel DOE
+def _jspace(entry, p):
+    """In which variables the stored Jacobians are expressed: "u" (design variables), "n" (normalized), "-" (none)."""
+    tags = set()
+    for name in ("@f", "@c"):
+        if name in entry:
+            u = jac_u(name, p)
+            got = entry[name]
+            if np.allclose(got, u, rtol=0, atol=1e-12):
+                tags.add("u")
+            elif np.allclose(got, [SCALE * v for v in u], rtol=0, atol=1e-12):
+                tags.add("n")
+            else:
+                tags.add("other")
+    return "-" if not tags else (tags.pop() if len(tags) == 1 else "mixed")
+
+
+def _doe(ck, rng):
+    from .c13 import tlc_many
+
     n = 4 if ck.thorough else 3
     pts = [1, 2, 3]
-    ck.tlc("ParallelDOE", doe_cfg(n, pts, 2), workers=4, deadlock=False,
-           require_actions=("PreSeed", "Start", "Complete", "RemoveEmpty"))
+    stages_q = (0, 1, 3)   # none, total failure, failure after the outputs
+    jobs = [("ParallelDOE", doe_cfg(n, pts, 2, stages=(0, 1, 2, 3, 4) if ck.thorough else stages_q),
+             dict(workers=4, deadlock=False, timeout=1500, require_actions=("PreSeed", "Start", "Complete", "RemoveEmpty"))),
+            ("ParallelDOE", doe_cfg(3, pts, 2, eval_jac=False, stages=(0, 1, 2)), dict(workers=2, deadlock=False)),
+            ("ParallelDOE", doe_cfg(3, [1, 2], 2, stages=(0, 1, 2, 3, 4)), dict(workers=2, deadlock=False))]
     if ck.thorough:
-        ck.tlc("ParallelDOE", doe_cfg(4, pts, 3), workers=8, deadlock=False)
-    r = ck.tlc("ParallelDOE", doe_cfg(3, pts, 2, cases=True), workers=1, deadlock=False, count=False, coverage=False)
+        jobs.append(("ParallelDOE", doe_cfg(4, pts, 3, stages=stages_q), dict(workers=4, deadlock=False, timeout=1500)))
+    n_ver = len(jobs)
+    # the two designs of the code as found are refuted by TLC
+    jobs.append(("ParallelDOE", doe_cfg(2, [1, 2], 2, drop_partial=True, verify=False),
+                 dict(workers=1, deadlock=False, expect_ok=False, count=False, coverage=False)))
+    jobs.append(("ParallelDOE", doe_cfg(2, [1, 2], 2, worker_jac=True, verify=False),
+                 dict(workers=1, deadlock=False, expect_ok=False, count=False, coverage=False)))
+    # cases to replay: random behaviours of the model, whole-sample failures (where the completion order matters
+    # most) and failures at every stage
+    for stages, num in (((0, 1), 3000 if ck.thorough else 1000), ((0, 1, 2, 3, 4), 2000 if ck.thorough else 500)):
+        jobs.append(("ParallelDOE", doe_cfg(3, pts, 2, stages=stages, cases=True),
+                     dict(workers=1, deadlock=False, count=False, coverage=False, simulate=f"num={num}",
+                          depth=30, seed=ck.seed + 5)))
+    res = tlc_many(ck, jobs)
+    for r in res[n_ver:n_ver + 2]:
+        if r.violated != "SameAsSequential":
+            raise MachineryError("a DOE design that is not equivalent to the sequential loop is not refuted")
     cases = {}
-    for v in r.printed():
+    for v in res[-2].printed() + res[-1].printed():
         if isinstance(v, tuple) and v and v[0] == "DOE":
-            _, samples, fail_pts, order, expect = v
-            cases[(tuple(seq(samples)), fail_pts, tuple(order))] = tuple(seq(expect))
+            _, samples, fail_at, normalize, order, db = v
+            fa = tuple(sorted((int(p), int(s)) for p, s in dict(fail_at).items())) if isinstance(fail_at, dict) \
+                else tuple((i + 1, int(s)) for i, s in enumerate(seq(fail_at)))
+            expect = tuple((e["pt"], tuple(sorted(e["names"])), e["jspace"]) for e in seq(db))
+            cases[(tuple(seq(samples)), fa, bool(normalize), tuple(seq(order)))] = expect
     if not cases:
         raise MachineryError("ParallelDOE printed no case")
-    items = sorted(cases.items(), key=lambda kv: (kv[0][0], sorted(kv[0][1]), kv[0][2]))
-    # non-trivial cases: a completion order different from the identity, or a failing/duplicated sample
-    nontrivial = [it for it in items if it[0][2] != tuple(sorted(it[0][2])) or it[0][1] or len(set(it[0][0])) < len(it[0][0])]
-    k = 60 if ck.thorough else 14
+    items = sorted(cases.items(), key=lambda kv: (kv[0][0], kv[0][1], kv[0][2], kv[0][3]))
+
+    def partial(it):
+        (samples, fa, _, _), _ = it
+        return any(dict(fa)[p] >= 2 for p in samples)
 
     def naive(it):
-        (samples, fail_pts, order), expect = it
+        # storing in completion order, without the pre-seeded entries
+        (samples, fa, _, order), expect = it
+        stored = {e[0] for e in expect}
         out = []
         for i in order:
             p = samples[i - 1]
-            if p not in fail_pts and p not in out:
+            if p in stored and p not in out:
                 out.append(p)
         return tuple(out)
 
-    # order-sensitive: storing in completion order would give another database than the sequential one
-    sensitive = [it for it in nontrivial if naive(it) != it[1]]
+    sensitive = [it for it in items if naive(it) != tuple(e[0] for e in it[1]) and not partial(it)]
+    partials = [it for it in items if partial(it)]
     ck.extra["parallel_doe_order_sensitive_cases_in_model"] = len(sensitive)
-    chosen = rng.sample(sensitive, min(k - k // 4, len(sensitive)))
-    rest = [it for it in nontrivial if it not in chosen]
-    chosen += rng.sample(rest, min(k // 4, len(rest)))
+    ck.extra["parallel_doe_partial_failure_cases_in_model"] = len(partials)
+    if not sensitive or not partials:
+        raise MachineryError("vacuity: the simulated DOE cases contain no order-sensitive / partially failing case")
+    k = 60 if ck.thorough else 15
+    chosen = rng.sample(sensitive, min(k - k // 3, len(sensitive)))
+    chosen += rng.sample(partials, min(k // 5, len(partials)))
+    rest = [it for it in items if it not in chosen and not partial(it)]
+    chosen += rng.sample(rest, min(k // 3 - k // 5, len(rest)))
     ck.extra["parallel_doe_cases_in_model"] = len(items)
     ck.extra["parallel_doe_cases_replayed"] = len(chosen)
     seq_cache = {}
-    for (samples, fail_pts, order), expect in chosen:
-        case = {"samples": list(samples), "fail_points": sorted(fail_pts), "completion_order": list(order),
-                "expected_keys": list(expect)}
+    n_ok = 0
+    for (samples, fa, normalize, order), expect in chosen:
+        fail_at = dict(fa)
+        case = {"samples": list(samples), "fail_at": {str(p): s for p, s in fa if s}, "normalize_design_space": normalize,
+                "completion_order": list(order), "expected_entries": [list(e) for e in expect]}
         ck.sample(case, limit=8)
-        sig = {"what": "parallel_doe"}
-        problem, res, problems = run_doe_forced(list(samples), set(fail_pts), list(order), 2)
+        sig = {"what": "parallel_doe", "partial_failure": any(fail_at[p] >= 2 for p in samples)}
+        problem, res, problems = run_doe_forced(list(samples), fail_at, normalize, list(order), 2)
         if "error" in res:
             ck.violation("DoeTerminates", dict(sig, exception=type(res["error"]).__name__), dict(case, error=repr(res["error"])))
             continue
-        if problems:
-            ck.violation("ScheduleAdmissible", sig, dict(case, problems=problems))
-            continue
         got = dump_db(problem)
-        want_keys = [PT[p] for p in expect]
+        want_keys = [PT[e[0]] for e in expect]
         if [g[0] for g in got] != want_keys:
-            ck.violation("SameAsSequential", sig, dict(case, impl_keys=[g[0] for g in got], spec_keys=want_keys))
+            ck.violation("SameAsSequential", dict(sig, part="keys"), dict(case, impl_keys=[g[0] for g in got], spec_keys=want_keys))
             continue
-        bad = [g for g, p in zip(got, expect) if abs(g[1]["f"][0] - f_val(p)) > 1e-12 or "@f" not in g[1] or "c" not in g[1]]
+        bad = [(g[0], sorted(g[1]), list(e[1])) for g, e in zip(got, expect) if sorted(g[1]) != sorted(e[1])]
+        if bad:
+            ck.violation("SameAsSequential", dict(sig, part="names"), dict(case, entries_impl_vs_spec=bad))
+            continue
+        bad = [(g[0], _jspace(g[1], e[0]), e[2]) for g, e in zip(got, expect) if _jspace(g[1], e[0]) != e[2]]
+        if bad:
+            ck.violation("SameAsSequential", dict(sig, part="jacobian_space", normalize=normalize),
+                         dict(case, jacobian_space_impl_vs_spec=bad))
+            continue
+        bad = [g for g, e in zip(got, expect) if "f" in g[1] and abs(g[1]["f"][0] - f_val(e[0])) > 1e-12]
         if bad:
             ck.violation("SameAsSequential", dict(sig, part="values"), dict(case, impl=bad))
             continue
-        key = (samples, fail_pts)
+        key = (samples, fa, normalize)
         if key not in seq_cache:
-            seq_cache[key] = dump_db(run_doe_seq(list(samples), set(fail_pts)))
+            seq_cache[key] = dump_db(run_doe_seq(list(samples), fail_at, normalize))
         if got != seq_cache[key]:
             ck.violation("SameAsSequential", dict(sig, part="vs_sequential_run"), dict(case, parallel=got, sequential=seq_cache[key]))
             continue
+        n_ok += 1
         ck.traces += 1
+    ck.extra["parallel_doe_cases_conforming"] = n_ok
+
+
+def run(ck, rng, records):
+    _doe(ck, rng)
     _shared_cache(ck, rng)
-    # ---- parallel chain / linearization / finite differences vs sequential
+    # ---- parallel chain / linearization / finite differences / Jacobi vs sequential
     _chains(ck, rng)
-    _disc_parallel(ck, rng)
+    _chain_members(ck, rng)
+    _disc_parallel(ck, rng, records)
+    _jacobi(ck, rng)
+    _front_end(ck, rng, records)
     _deep_copy_chain(ck, rng)
     _fd(ck, rng)
 
@@ -255,7 +364,7 @@ def _chains(ck, rng):
                 want.update({k: v for k, v in d.execute(data).items() if k in s[2]})
                 j = d.linearize(data, compute_all_jacobians=True)
                 wjac.update(j)
-            bad = [k for k in want if not np.array_equal(np.asarray(out[k]), np.asarray(want[k]))]
+            bad = [k for k in want if k not in out or not np.array_equal(np.asarray(out[k]), np.asarray(want[k]))]
             if bad:
                 ck.violation("ChainEquivalent", sig, dict(case, differing_outputs=bad))
                 continue
@@ -485,65 +594,652 @@ def _shared_cache_processes(ck, rng, scheds, inp, out, jac, own):
     ck.extra["shared_cache_process_schedules_replayed"] = n
 
 
-def _disc_parallel(ck, rng):
-    """DiscParallelExecution / DiscParallelLinearization with one discipline per input: for every subset
-    of failing disciplines (the `fails` sets of ParallelExec.tla) the returned list is positionally
-    matched and EACH DISCIPLINE holds its own outputs afterwards (a failure affects only its own slot) -
-    the state a sequential loop over the disciplines leaves."""
+# ------------------------------------------------------------------ observation of the pool inside a client
+
+class PoolObserver:
+    """Counts the results put on the output queue of ANY executor created while it is active (thread
+    back-end: logging queue double; process back-end: wrapped managed queues), so that a controller can
+    release gated members one at a time and know that each result is in the queue before the next."""
+
+    def __init__(self, threads):
+        self.threads = threads
+
+    def __enter__(self):
+        import gemseo.core.parallel_execution.callable_parallel_execution as mod
+
+        from . import c13
+
+        self._mod = mod
+        if self.threads:
+            self._rec = c13.Recorder()
+            self._saved = mod.queue
+            mod.queue = c13.make_queue_ns(self._rec)
+        else:
+            self._cm = c13.observed_processes()
+            self._nput = self._cm.__enter__()
+        return self
+
+    def __exit__(self, *a):
+        if self.threads:
+            self._mod.queue = self._saved
+        else:
+            self._cm.__exit__(*a)
+
+    def n_put(self):
+        return self._rec.count("out_put") if self.threads else self._nput.value
+
+
+def call_gated(fn, release, alive_wait):
+    """Run fn() in a thread while release(ended_event) opens the gates; returns (result | None, exception | None)."""
+    box = {}
+    ended = threading.Event()
+
+    def target():
+        try:
+            box["out"] = fn()
+        except BaseException as e:  # noqa: BLE001
+            box["exc"] = e
+        ended.set()
+
+    th = threading.Thread(target=target, daemon=True)
+    th.start()
+    release(ended)
+    if not ended.wait(alive_wait):
+        return None, TimeoutError("the call did not return")
+    return box.get("out"), box.get("exc")
+
+
+# ------------------------------------------------------------------ parallel chains whose members share outputs
+
+def chain_cfg(nm, names, nw, ncalls, additive, *, gather=False, swallow=False, max_failing=1, cases=False, invs=None,
+              verify=True):
+    s = (f"CONSTANTS NMembers = {nm}\n Names = {{{', '.join(chr(34) + n + chr(34) for n in names)}}}\n NWorkers = {nw}\n"
+         f" NCalls = {ncalls}\n Additive = {_b(additive)}\n GatherAsCompleted = {_b(gather)}\n SwallowFailures = {_b(swallow)}\n"
+         f" MaxFailing = {max_failing}\nSPECIFICATION Spec\n")
+    for i in (invs or ("SameAsSequential", "FailurePropagates", "NoStaleData")):
+        s += f"INVARIANT {i}\n"
+    if cases:
+        s += "INVARIANT Cases\n"
+    elif verify:
+        s += "VIEW View\nPROPERTY Live\n"
+    return s
+
+
+CH_NAMES = ("a", "b")
+CH_W = {1: 1.0, 2: 2.0, 3: 4.0}       # weight of member m: sums of weights identify the contributing members
+CH_J = {"a": 1.0, "b": 2.0}
+
+
+def ch_x(k):
+    return 16.0 * k + 0.5
+
+
+def ch_value(contribs, name):
+    """The number a symbolic value of the specification stands for."""
+    return sum(CH_W[m] * (ch_x(kk) + CH_J[name]) for kk, m in contribs)
+
+
+def ch_decode(v, name, k):
+    """Which contributions (call, member) a number is made of, for the report."""
+    for kk in range(k, 0, -1):
+        w = v / (ch_x(kk) + CH_J[name])
+        if w == int(w) and 1 <= w <= 7:
+            return sorted((kk, m) for m in CH_W if int(w) & int(CH_W[m]))
+    return f"undecodable {v}"
+
+
+class ChainControl:
+    def __init__(self, calls, nm):
+        ctx = mp.get_context("fork")
+        self.round = ctx.Value("i", 0)   # 1: the members are being executed, 2: linearized
+        self.call = ctx.Value("i", 0)
+        self.failing = {k: set(c["failing"]) for k, c in enumerate(calls, 1)}
+        keys = [(k, r, m) for k in range(1, len(calls) + 1) for r in (1, 2) for m in range(1, nm + 1)]
+        self.gates = {key: ctx.Event() for key in keys}
+        self.started = {key: ctx.Event() for key in keys}
+
+    def enter(self, r, m):
+        if self.round.value != r:
+            return
+        key = (self.call.value, r, m)
+        self.started[key].set()
+        self.gates[key].wait(600)
+
+    def open_all(self):
+        for g in self.gates.values():
+            g.set()
+
+
+def _member(m, outs, ctl):
+    from gemseo.core.discipline import Discipline
+
+    class Member(Discipline):
+        def __init__(self):
+            super().__init__(name=f"M{m}")
+            self.io.input_grammar.update_from_names(["x"])
+            self.io.output_grammar.update_from_names(sorted(outs))
+            self.io.input_grammar.defaults["x"] = np.array([1.0])
+
+        def _run(self, input_data):
+            ctl.enter(1, m)
+            if ctl.round.value == 1 and m in ctl.failing[ctl.call.value]:
+                raise RuntimeError(f"member {m} fails")
+            x = input_data["x"]
+            return {n: CH_W[m] * (x + CH_J[n]) for n in outs}
+
+        def _compute_jacobian(self, input_names=(), output_names=()):
+            ctl.enter(2, m)
+            self.jac = {n: {"x": np.array([[CH_W[m]]])} for n in outs}
+
+    return Member()
+
+
+def _chain_members(ck, rng):
+    """ParallelChain.tla: members sharing output names, every admissible completion order of the members
+    (execution and linearization), repeated calls, failing members - on MDOParallelChain and MDOAdditiveChain,
+    threads and processes."""
+    from gemseo.core.chains.additive_chain import MDOAdditiveChain
+    from gemseo.core.chains.parallel_chain import MDOParallelChain
+
+    from .c13 import patience, tlc_many
+
+    nm = 3
+    ncalls = 3 if ck.thorough else 2
+    acts = ("StartCall", "Start", "Complete", "Assemble")
+    jobs = [("ParallelChain", chain_cfg(nm, CH_NAMES, 2, 2, False, max_failing=3), dict(workers=2, deadlock=False, require_actions=acts)),
+            ("ParallelChain", chain_cfg(nm, CH_NAMES, 3, 1, True, max_failing=3), dict(workers=2, deadlock=False, require_actions=acts))]
+    if ck.thorough:
+        jobs.append(("ParallelChain", chain_cfg(nm, CH_NAMES, 2, 2, True, max_failing=3), dict(workers=4, deadlock=False, timeout=1500)))
+        jobs.append(("ParallelChain", chain_cfg(nm, CH_NAMES, 3, 3, False, max_failing=1), dict(workers=4, deadlock=False, timeout=1500)))
+    n_ver = len(jobs)
+    refute = [(dict(gather=True), "SameAsSequential"), (dict(swallow=True), "FailurePropagates"), (dict(swallow=True), "NoStaleData")]
+    for kw, inv in refute:
+        jobs.append(("ParallelChain", chain_cfg(nm, CH_NAMES, 2, 2, False, invs=[inv], verify=False, **kw),
+                     dict(workers=1, deadlock=False, expect_ok=False, count=False, coverage=False)))
+    n_sim = 1500 if ck.thorough else 500
+    for additive in (False, True):
+        jobs.append(("ParallelChain", chain_cfg(nm, CH_NAMES, 2, ncalls, additive, cases=True),
+                     dict(workers=1, deadlock=False, count=False, coverage=False, simulate=f"num={n_sim}", depth=80,
+                          seed=ck.seed + 7 + additive)))
+    res = tlc_many(ck, jobs)
+    for (kw, inv), r in zip(refute, res[n_ver:n_ver + len(refute)]):
+        if r.violated != inv:
+            raise MachineryError(f"ParallelChain: the design {kw} is not refuted on {inv} (TLC: {r.violated})")
+    ck.extra["parallel_chain_designs_refuted"] = [f"{list(kw)[0]}:{inv}" for kw, inv in refute]
+    stats = {"threads": 0, "processes": 0, "order_sensitive": 0, "with_failing_member": 0}
+    for additive, r in zip((False, True), res[-2:]):
+        cases = []
+        seen = set()
+        for v in r.printed():
+            if isinstance(v, tuple) and v and v[0] == "CHAIN":
+                outs = [set(o) for o in seq(v[1])]
+                calls = [dict(c) for c in seq(v[3])]
+                key = repr((sorted(map(sorted, outs)), sorted(v[2]), [(sorted(c["failing"]), c["eorder"], c["lorder"]) for c in calls]))
+                if key not in seen:
+                    seen.add(key)
+                    cases.append((outs, set(v[2]), calls))
+        if not cases:
+            raise MachineryError("ParallelChain printed no case")
+
+        def sensitive(case):
+            # a call in which a member defining a shared, not summed, name completes after the last definer
+            outs, to_sum, calls = case
+            for n in CH_NAMES:
+                defs = [m for m in range(1, nm + 1) if n in outs[m - 1]]
+                if len(defs) < 2 or n in to_sum:
+                    continue
+                for c in calls:
+                    if not c["raised"] and list(c["eorder"]).index(defs[-1]) < max(list(c["eorder"]).index(m) for m in defs[:-1]):
+                        return True
+            return False
+
+        def ok_then_failing(case):
+            calls = case[2]
+            return any(not calls[i]["raised"] and calls[i + 1]["raised"] for i in range(len(calls) - 1))
+
+        sens = [c for c in cases if sensitive(c)]
+        failing = [c for c in cases if ok_then_failing(c) and c not in sens]
+        rest = [c for c in cases if c not in sens and c not in failing]
+        ck.extra[f"parallel_chain_cases_in_model_additive_{additive}"] = len(cases)
+        ck.extra[f"parallel_chain_order_sensitive_cases_in_model_additive_{additive}"] = len(sens)
+        if not sens or not failing:
+            raise MachineryError("vacuity: no order-sensitive / ok-then-failing chain case in the simulated behaviours")
+        plan = {True: rng.sample(sens, min(len(sens), 24 if ck.thorough else 7)) + rng.sample(failing, min(len(failing), 6 if ck.thorough else 2))
+                      + rng.sample(rest, min(len(rest), 6 if ck.thorough else 1)),
+                False: rng.sample(sens, min(len(sens), 8 if ck.thorough else 2)) + rng.sample(failing, min(len(failing), 3 if ck.thorough else 1))}
+        for threads, chosen in plan.items():
+            for outs, to_sum, calls in chosen:
+                backend = "threads" if threads else "processes"
+                sig = {"what": "parallel_chain_members", "backend": backend, "additive": additive}
+                case = {"chain": "MDOAdditiveChain" if additive else "MDOParallelChain", "backend": backend,
+                        "member_outputs": [sorted(o) for o in outs], "outputs_to_sum": sorted(to_sum),
+                        "calls": [{"failing": sorted(c["failing"]), "execution_order": list(c["eorder"]),
+                                   "linearization_order": list(c["lorder"])} for c in calls]}
+                if stats[backend] < 1:
+                    ck.sample(case, limit=14)
+                stats[backend] += 1
+                stats["order_sensitive"] += sensitive((outs, to_sum, calls))
+                stats["with_failing_member"] += any(c["raised"] for c in calls)
+                if _replay_chain(ck, sig, case, additive, threads, outs, to_sum, calls, nm, patience()):
+                    ck.traces += 1
+    ck.extra["parallel_chain_member_cases_replayed"] = stats
+
+
+def _replay_chain(ck, sig, case, additive, threads, outs, to_sum, calls, nm, wait):
+    from gemseo.core.chains.additive_chain import MDOAdditiveChain
+    from gemseo.core.chains.parallel_chain import MDOParallelChain
+
+    ctl = ChainControl(calls, nm)
+    members = [_member(m, outs[m - 1], ctl) for m in range(1, nm + 1)]
+    if additive:
+        # (a name to sum that no member defines is not an output of the chain)
+        chain = MDOAdditiveChain(members, sorted(set(to_sum) & set().union(*outs)), use_threading=threads, n_processes=2)
+    else:
+        chain = MDOParallelChain(members, use_threading=threads, n_processes=2)
+    names = sorted(set().union(*outs))
+    chain.add_differentiated_inputs(["x"])
+    chain.add_differentiated_outputs(names)
+    ok = True
+    with PoolObserver(threads) as obs, contextlib.redirect_stderr(io.StringIO()):
+        try:
+            for k, c in enumerate(calls, 1):
+                x = {"x": np.array([ch_x(k)])}
+                ctl.call.value = k
+                # a new evaluation after a failed one: the caller resets the statuses (as DisciplineAdapter does)
+                for d in [chain, *members]:
+                    d.execution_status.value = d.execution_status.Status.DONE
+                for r, order, what in ((1, list(c["eorder"]), "data"), (2, list(c["lorder"]), "jac")):
+                    ctl.round.value = r
+
+                    def release(ended, r=r, order=order, k=k):
+                        for m in order:
+                            while not ctl.started[(k, r, m)].wait(0.05):
+                                if ended.is_set():
+                                    return
+                            n0 = obs.n_put()
+                            ctl.gates[(k, r, m)].set()
+                            deadline = time.time() + wait
+                            while obs.n_put() <= n0 and time.time() < deadline and not ended.is_set():
+                                time.sleep(0.0005)
+                        for key, g in ctl.gates.items():
+                            if key[0] == k and key[1] == r:
+                                g.set()
+
+                    fn = (lambda: chain.execute(x)) if r == 1 else (lambda: chain.linearize(x))
+                    out, exc = call_gated(fn, release, 6 * wait)
+                    for key, g in ctl.gates.items():
+                        if key[0] == k and key[1] == r:
+                            g.set()
+                    ctl.round.value = 0
+                    if isinstance(exc, TimeoutError):
+                        ck.violation("ChainTerminates", sig, dict(case, call=k, round=what))
+                        return False
+                    if c["raised"]:
+                        # the sequential chain raises at a failing member: so must the parallel chain
+                        if exc is None:
+                            stale = {n: ch_decode(_num(out, n), n, k) for n in names if _num(out, n) is not None}
+                            ck.violation("FailurePropagates", dict(sig, part="failing_member"),
+                                         dict(case, call=k, returned_instead_of_raising=stale))
+                            ok = False
+                        break
+                    if exc is not None:
+                        ck.violation("ChainEquivalent", dict(sig, part=what, exception=type(exc).__name__),
+                                     dict(case, call=k, exception=repr(exc)))
+                        return False
+                    spec = c["data"] if r == 1 else c["jac"]
+                    bad = {}
+                    for n in names:
+                        contribs = sorted(tuple(t) for t in spec[n])
+                        if r == 1:
+                            want = ch_value(contribs, n)
+                            got = _num(out, n)
+                            if got != want:
+                                bad[n] = {"spec": contribs, "impl": "missing" if got is None else ch_decode(got, n, k)}
+                        else:
+                            want = sum(CH_W[m] for _, m in contribs)
+                            blk = out.get(n, {}).get("x")
+                            got = None if blk is None else float(np.ravel(blk.toarray() if hasattr(blk, "toarray") else blk)[0])
+                            if got != want:
+                                bad[n] = {"spec_members": [m for _, m in contribs], "impl_sum_of_weights": got}
+                    if bad:
+                        ck.violation("ChainSameAsSequential", dict(sig, part=what), dict(case, call=k, differing=bad))
+                        ok = False
+                        break
+        finally:
+            ctl.open_all()
+    return ok
+
+
+# ------------------------------------------------------------------ DiscParallelExecution / Linearization reused
+
+def _disc_parallel(ck, rng, records):
+    """DiscParallelExecution / DiscParallelLinearization with one discipline per input, REUSED over two
+    consecutive executions: for every subset of failing disciplines of each execution (the `fails` sets of
+    ParallelExec.tla) the returned list is positionally matched (None in a failed slot only) and EACH
+    DISCIPLINE holds its own outputs afterwards - the state a sequential loop over the disciplines leaves."""
     import itertools
 
     from gemseo.core.discipline import Discipline
     from gemseo.core.parallel_execution.disc_parallel_execution import DiscParallelExecution
+    from gemseo.core.parallel_execution.disc_parallel_linearization import DiscParallelLinearization
 
-    def mk(k, fail):
+    def mk(k, gate=None):
         class D(Discipline):
             def __init__(self):
                 super().__init__(name=f"D{k}")
-                self.io.input_grammar.update_from_names(["x"])
+                self.io.input_grammar.update_from_names(["x", "bad", "hold"])
                 self.io.output_grammar.update_from_names([f"y{k}"])
-                self.io.input_grammar.defaults.update({"x": np.array([0.0])})
+                self.io.input_grammar.defaults.update({"x": np.array([0.0]), "bad": np.array([0.0]), "hold": np.array([0.0])})
 
             def _run(self, input_data):
-                if fail:
+                if gate is not None and input_data["hold"][0] > 0:
+                    gate.wait(600)
+                if input_data["bad"][0] > 0:
                     raise ValueError(f"D{k} fails")
                 return {f"y{k}": input_data["x"] * (k + 2)}
 
+            def _compute_jacobian(self, input_names=(), output_names=()):
+                self.jac = {f"y{k}": {"x": np.array([[k + 2.0]]), "bad": np.array([[0.0]]), "hold": np.array([[0.0]])}}
+
         return D()
 
-    n = 0
+    n = {"DiscParallelExecution": 0, "DiscParallelLinearization": 0}
     nd = 3
-    subsets = [set(c) for r in range(nd + 1) for c in itertools.combinations(range(nd), r)]
-    for use_threading in (True, False):
-        todo = subsets if (ck.thorough or use_threading) else rng.sample(subsets, 3)
-        for fails in todo:
-            discs = [mk(k, k in fails) for k in range(nd)]
-            inputs = [{"x": np.array([10.0 + k])} for k in range(nd)]
-            sig = {"what": "disc_parallel_execution", "threads": use_threading}
-            case = {"client": "DiscParallelExecution", "threads": use_threading, "failing": sorted(fails)}
-            with contextlib.redirect_stderr(io.StringIO()):
-                ok, out = ck.guard("DiscParallelSlotIsolation", sig,
-                                   lambda: DiscParallelExecution(discs, n_processes=2, use_threading=use_threading).execute(inputs))
-            if not ok:
-                continue
-            bad = []
-            for k in range(nd):
-                want = None if k in fails else {"x": 10.0 + k, f"y{k}": (10.0 + k) * (k + 2)}
-                got = out[k]
-                if want is None:
-                    if got is not None:
-                        bad.append(f"slot {k}: expected None (failed), got data")
+    # the specification's terminal states for nd tasks, no re-raised type: slot i holds its value iff i is not in fails
+    recs = [h for (_, h) in records[2].values() if h["n"] == nd and not h["reraise"]]
+    fail_sets = sorted({tuple(sorted(h["fails"])) for h in recs})
+    if len(fail_sets) != 2 ** nd:
+        raise MachineryError("the specification's records do not cover every set of failing tasks")
+    pairs = list(itertools.product(fail_sets, fail_sets))
+    for kind, cls in (("DiscParallelExecution", DiscParallelExecution), ("DiscParallelLinearization", DiscParallelLinearization)):
+        for use_threading in (True, False):
+            todo = pairs if ck.thorough else [((), ())] + rng.sample(pairs, 9 if use_threading else 2)
+            for hist in todo:
+                discs = [mk(k) for k in range(nd)]
+                if kind == "DiscParallelLinearization":
+                    for d in discs:
+                        d.add_differentiated_inputs(["x"])
+                        d.add_differentiated_outputs()
+                sig = {"what": "disc_parallel", "kind": kind, "threads": use_threading}
+                case = {"client": kind, "threads": use_threading, "failing_per_execution": [list(f) for f in hist]}
+                with contextlib.redirect_stderr(io.StringIO()):
+                    ok, ex = ck.guard("DiscParallelSlotIsolation", sig, lambda: cls(discs, n_processes=2, use_threading=use_threading))
+                if not ok:
                     continue
-                if got is None or float(got[f"y{k}"][0]) != want[f"y{k}"]:
-                    bad.append(f"slot {k}: returned {None if got is None else dict(got)}")
-                held = discs[k].io.data
-                if f"y{k}" not in held or float(held[f"y{k}"][0]) != want[f"y{k}"] or float(held["x"][0]) != want["x"]:
-                    bad.append(f"discipline D{k} holds { {a: np.asarray(b).tolist() for a, b in held.items()} } instead of its own outputs")
+                bad = []
+                for e, fails in enumerate(hist, 1):
+                    fails = {i - 1 for i in fails}
+                    inputs = [{"x": np.array([10.0 * e + k]), "bad": np.array([1.0 if k in fails else 0.0])} for k in range(nd)]
+                    # a new execution after a failed one: the caller resets the statuses (as DisciplineAdapter does)
+                    for d in discs:
+                        d.execution_status.value = d.execution_status.Status.DONE
+                    with contextlib.redirect_stderr(io.StringIO()):
+                        ok, out = ck.guard("DiscParallelSlotIsolation", dict(sig, execution=e), lambda: ex.execute(inputs))
+                    if not ok:
+                        bad = None
+                        break
+                    if len(out) != nd:
+                        bad.append(f"execution {e}: {len(out)} results for {nd} inputs (the specification keeps None in a failed slot)")
+                        break
+                    for k in range(nd):
+                        y = (10.0 * e + k) * (k + 2)
+                        got = out[k]
+                        if k in fails:
+                            if got is not None:
+                                bad.append(f"execution {e} slot {k}: expected None (failed), got data")
+                            continue
+                        if kind == "DiscParallelExecution":
+                            if got is None or _num(got, f"y{k}") != y:
+                                bad.append(f"execution {e} slot {k}: returned {None if got is None else dict(got)}")
+                        else:
+                            blk = None if got is None else _num(got.get(f"y{k}", {}), "x")
+                            if blk != k + 2.0:
+                                bad.append(f"execution {e} slot {k}: Jacobian {None if got is None else dict(got)}")
+                        held = discs[k].io.data
+                        if _num(held, f"y{k}") != y or _num(held, "x") != 10.0 * e + k:
+                            bad.append(f"execution {e}: discipline D{k} holds { {a: np.asarray(b).tolist() for a, b in held.items()} } instead of its own outputs")
+                    if bad:
+                        break
+                if bad is None:
+                    continue
+                if bad:
+                    ck.violation("DiscParallelSlotIsolation", dict(sig, failing=bool(any(hist))), dict(case, problems=bad))
+                else:
+                    n[kind] += 1
+                    ck.traces += 1
+    ck.extra["disc_parallel_runs"] = n
+    _disc_parallel_reraise(ck, rng, records, mk, nd)
+
+
+def _disc_parallel_reraise(ck, rng, records, mk, nd):
+    """A DiscParallelExecution that re-raises ValueError (as MDAJacobi's), reused: an execution with failing
+    disciplines stops early while the other disciplines are still running (they complete AFTER the failure
+    reached the output queue: the terminal state of ParallelExec.tla with results left behind); the next
+    execution on the same object is positionally matched all the same (ExecutionsIndependent)."""
+    import itertools
+
+    from gemseo.core.parallel_execution.disc_parallel_execution import DiscParallelExecution
+
+    from .c13 import patience
+
+    # the specification's records for nd tasks whose failures are all of a re-raised type
+    recs = [h for (_, h) in records[2].values() if h["n"] == nd and h["fails"] == h["reraise"]]
+    spec_raised = {tuple(sorted(h["fails"])): h["raised"] for h in recs}
+    fail_sets = sorted(spec_raised)
+    # an execution stopped early, then a failure-free one (whose slots are all comparable), then any
+    pairs = [(a, (), b) for a, b in itertools.product(fail_sets, fail_sets) if a and len(a) < nd]
+    ctx = mp.get_context("fork")
+    wait = patience()
+    n = 0
+    for use_threading in (True, False):
+        for hist in (pairs if ck.thorough else rng.sample(pairs, 4 if use_threading else 2)):
+            gate = ctx.Event()
+            discs = [mk(k, gate) for k in range(nd)]
+            sig = {"what": "disc_parallel_reraise", "threads": use_threading}
+            case = {"client": "DiscParallelExecution(exceptions_to_re_raise=(ValueError,))", "threads": use_threading,
+                    "failing_per_execution": [list(f) for f in hist]}
+            bad = []
+            with PoolObserver(use_threading) as obs, contextlib.redirect_stderr(io.StringIO()):
+                ex = DiscParallelExecution(discs, n_processes=nd, use_threading=use_threading, exceptions_to_re_raise=(ValueError,))
+                for e, fails in enumerate(hist, 1):
+                    fails = {i - 1 for i in fails}
+                    gate.clear()
+                    inputs = [{"x": np.array([10.0 * e + k]), "bad": np.array([1.0 if k in fails else 0.0]),
+                               "hold": np.array([1.0 if fails and k not in fails else 0.0])} for k in range(nd)]
+                    for d in discs:
+                        d.execution_status.value = d.execution_status.Status.DONE
+
+                    def release(ended, fails=fails):
+                        if fails:
+                            n0 = obs.n_put()
+                            deadline = time.time() + wait
+                            while obs.n_put() <= n0 and time.time() < deadline and not ended.is_set():
+                                time.sleep(0.001)
+                        gate.set()
+
+                    out, exc = call_gated(lambda: ex.execute(inputs), release, 6 * wait)
+                    gate.set()
+                    want_raise = spec_raised[tuple(sorted(i + 1 for i in fails))]
+                    if want_raise != isinstance(exc, ValueError) or (exc is not None and not isinstance(exc, ValueError)):
+                        bad.append(f"execution {e}: specification raises={want_raise}, implementation: {exc!r}")
+                        break
+                    if want_raise:
+                        continue
+                    if out is None or len(out) != nd:
+                        bad.append(f"execution {e}: returned {out!r} for {nd} inputs")
+                        break
+                    for k in range(nd):
+                        y = (10.0 * e + k) * (k + 2)
+                        if out[k] is None or _num(out[k], f"y{k}") != y:
+                            bad.append(f"execution {e} slot {k}: returned {None if out[k] is None else dict(out[k])}, expected y{k} = {y}")
+                        held = discs[k].io.data
+                        if _num(held, f"y{k}") != y:
+                            bad.append(f"execution {e}: discipline D{k} holds { {a: np.asarray(b).tolist() for a, b in held.items()} }")
+                    if bad:
+                        break
             if bad:
-                ck.violation("DiscParallelSlotIsolation", sig, dict(case, problems=bad))
+                ck.violation("ExecutionsIndependent", sig, dict(case, problems=bad))
             else:
                 n += 1
                 ck.traces += 1
-    ck.extra["disc_parallel_execution_runs"] = n
+    ck.extra["disc_parallel_reraise_histories"] = n
+
+
+# ------------------------------------------------------------------ parallel Jacobi MDA over a history of points
+
+def _jacobi(ck, rng):
+    """MDAJacobi (a DiscParallelExecution kept for the life of the MDA, ValueError re-raised) over a history of
+    points some of which make a discipline fail: at every point the parallel MDA does what the sequential one
+    does (same exception or same data and residual history).  At a failing point the other discipline
+    completes AFTER the failure reached the output queue (the early-stop terminal state of ParallelExec.tla
+    with a result left behind), forced through the pool observer."""
+    from gemseo.core.discipline import Discipline
+    from gemseo.mda.jacobi import MDAJacobi
+
+    from .c13 import patience
+
+    ctx = mp.get_context("fork")
+
+    def build(gate, waiting):
+        class A(Discipline):
+            def __init__(self):
+                super().__init__(name="A")
+                self.io.input_grammar.update_from_names(["x", "y2"])
+                self.io.output_grammar.update_from_names(["y1"])
+                self.io.input_grammar.defaults.update({"x": np.array([1.0]), "y2": np.array([0.0])})
+
+            def _run(self, input_data):
+                if input_data["x"][0] < 0:
+                    raise ValueError("x < 0")
+                return {"y1": input_data["x"] + 0.5 * input_data["y2"]}
+
+        class B(Discipline):
+            def __init__(self):
+                super().__init__(name="B")
+                self.io.input_grammar.update_from_names(["x", "y1"])
+                self.io.output_grammar.update_from_names(["y2"])
+                self.io.input_grammar.defaults.update({"x": np.array([1.0]), "y1": np.array([0.0])})
+
+            def _run(self, input_data):
+                if input_data["x"][0] < 0 and gate is not None:
+                    waiting.set()
+                    gate.wait(600)
+                return {"y2": 2 * input_data["x"] + 0.125 * input_data["y1"]}
+
+        return [A(), B()]
+
+    def history(points, n_processes, threads, obs, wait):
+        gate, waiting = (ctx.Event(), ctx.Event()) if n_processes > 1 else (None, None)
+        mda = MDAJacobi(build(gate, waiting), n_processes=n_processes, use_threading=threads, max_mda_iter=4,
+                        tolerance=1e-14, acceleration_method="NoTransformation")
+        out = []
+        for x in points:
+            for d in [mda, *mda.disciplines]:
+                d.execution_status.value = d.execution_status.Status.DONE
+            if gate is not None:
+                gate.clear()
+                waiting.clear()
+
+            def release(ended):
+                if gate is None or x >= 0:
+                    return
+                n0 = obs.n_put()
+                deadline = time.time() + wait
+                # B is released once A's failure is in the output queue
+                while obs.n_put() <= n0 and time.time() < deadline and not ended.is_set():
+                    time.sleep(0.001)
+                gate.set()
+
+            data, exc = call_gated(lambda: mda.execute({"x": np.array([x])}), release, 6 * wait)
+            if gate is not None:
+                gate.set()
+            if exc is not None:
+                out.append(("raises", type(exc).__name__))
+            else:
+                out.append(("data", _num(data, "y1"), _num(data, "y2"), [float(r) for r in mda.residual_history]))
+        return out
+
+    n = 0
+    hists = [[-1.0, 1.0], [1.0, -1.0, 2.0], [-1.0, -2.0, 1.0, 3.0]]
+    if not ck.thorough:
+        hists = hists[:2]
+    for points in hists:
+        with contextlib.redirect_stderr(io.StringIO()):
+            want = history(points, 1, True, None, patience())
+        for threads in (True, False):
+            sig = {"what": "parallel_jacobi", "threads": threads}
+            case = {"client": "MDAJacobi", "threads": threads, "points_x": points}
+            with PoolObserver(threads) as obs, contextlib.redirect_stderr(io.StringIO()):
+                ok, got = ck.guard("JacobiEquivalent", sig, history, points, 2, threads, obs, patience())
+            if not ok:
+                continue
+            diff = [i for i, (a, b) in enumerate(zip(want, got)) if a != b]
+            if diff:
+                ck.violation("JacobiEquivalent", dict(sig, after_failed_point=any(p < 0 for p in points[:diff[0]])),
+                             dict(case, first_differing_point=diff[0], sequential=want[diff[0]], parallel=got[diff[0]]))
+            else:
+                n += 1
+                ck.traces += 1
+    ck.extra["parallel_jacobi_histories"] = n
+
+
+# ------------------------------------------------------------------ front-end and callback forms
+
+def _double(x):
+    return 100 + x
+
+
+def _front_end(ck, rng, records):
+    """(a) `gemseo.utils.multiprocessing.execution.execute` (used by multi-start and mNBI) for ANY number of
+    workers, one included: results positional, each callback once per task with the matching index;
+    (b) the forms of `exec_callback` the executor's signature accepts (a callable, a list, a tuple, a one-shot
+    iterable).  Expected values: the specification's records of a failure-free execution."""
+    from gemseo.core.parallel_execution.callable_parallel_execution import CallableParallelExecution
+    from gemseo.utils.multiprocessing.execution import execute
+
+    nt = 3
+    n = 0
+    for nw in (1, 2, 3):
+        recs = [h for (_, h) in records[nw].values() if h["n"] == nt and not h["fails"]]
+        if not recs:
+            raise MachineryError("no failure-free record in the specification's output")
+        want_out = list(recs[0]["ordered"])
+        want_cb = sorted(tuple(c) for c in recs[0]["cb"])
+        sig = {"what": "front_end_execute", "n_processes": nw}
+        calls = []
+        with contextlib.redirect_stderr(io.StringIO()):
+            ok, out = ck.guard("Positional", sig, execute, _double, [lambda i, o: calls.append((i + 1, o))], nw, [1, 2, 3])
+        if not ok:
+            continue
+        if list(out) != want_out:
+            ck.violation("Positional", sig, {"spec": want_out, "impl": list(out)})
+        elif sorted(calls) != want_cb:
+            ck.violation("CallbackMatches", sig, {"spec": want_cb, "impl": sorted(calls), "n_processes": nw})
+        else:
+            n += 1
+            ck.traces += 1
+    recs = [h for (_, h) in records[2].values() if h["n"] == nt and not h["fails"]]
+    want_cb = sorted(tuple(c) for c in recs[0]["cb"])
+    for form in ("callable", "list", "tuple", "iterator", "generator"):
+        for threads in (True, False):
+            calls = []
+
+            def cb(i, o):
+                calls.append((i + 1, o))
+
+            arg = {"callable": cb, "list": [cb], "tuple": (cb,), "iterator": iter([cb]), "generator": (c for c in [cb])}[form]
+            sig = {"what": "callback_form", "form": form, "threads": threads}
+            with contextlib.redirect_stderr(io.StringIO()):
+                ok, out = ck.guard("CallbackAll", sig, lambda: CallableParallelExecution(
+                    [_double], n_processes=2, use_threading=threads).execute([1, 2, 3], exec_callback=arg))
+            if not ok:
+                continue
+            if sorted(calls) != want_cb:
+                ck.violation("CallbackAll", sig, {"spec": want_cb, "impl": sorted(calls)})
+            else:
+                n += 1
+                ck.traces += 1
+    ck.extra["front_end_runs"] = n
 
 
 def _deep_copy_chain(ck, rng):
